@@ -669,6 +669,12 @@ def _order(m):
         use_lemma("sum_scale", XWi, scaled, 1 / c, n)
         ensures(ssum(n, lambda k: scaled[k]) == (1 / c) * ssum(n, lambda k: XWi[k]), id="step: the sum of the scaled terms (lemma sum_scale)")
         ensures(c == ssum(n, lambda k: Wi[k]), id="step: the normalisation is the total weight")
+        # (the last step in small pieces: each of them is a one-line fact for the solver, whatever else is in the context)
+        S_xw, S_w, S_sc = ssum(n, lambda k: XWi[k]), ssum(n, lambda k: Wi[k]), ssum(n, lambda k: scaled[k])
+        ensures(wmean(self, yv, 0, n) == S_sc, id="step: the mean is the sum of the scaled terms (definition)")
+        ensures(S_sc == (1 / c) * S_xw and c == S_w and c > 0, id="step: the two facts about that sum, side by side")
+        ensures((1 / c) * S_xw == S_xw / c, id="step: multiplying by 1 / c is dividing by c")
+        ensures(wmean(self, yv, 0, n) == S_xw / c, id="step: mean == sum(w x) / c")
         ensures(wmean(self, yv, 0, n) == ssum(n, lambda k: XWi[k]) / ssum(n, lambda k: Wi[k]), id="step: mean == sum(w x) / sum(w) in the internal order")
         ensures(wmean(self, yv, 0, n) == ssum(n, lambda j: XW0[j]) / ssum(n, lambda j: W0[j]),
                 id="predict's mean == sum(w_i x_i) / sum(w_i) over the caller's database, whatever its order")
